@@ -549,6 +549,28 @@ pub fn run_live(ctx: &mut Ctx) {
                     cl.wait(Duration::from_millis(700), |c| id.and_then(|i| c.streams.get(&i)).map(|s| s.status.is_some()).unwrap_or(false));
                     let served = id.map(|i| cl.stream(i).status.is_some()).unwrap_or(false);
                     ctx.stat(&format!("live_quic_sni_{}", sni.split('.').next().unwrap_or("")));
+                    if !served {
+                        // denied means dropped: a peer that keeps talking (a PING every 100 ms) sees the endpoint close the
+                        // connection - it is not left established, acknowledged and buffered for as long as the peer likes
+                        let t0 = std::time::Instant::now();
+                        let mut closed = false;
+                        while t0.elapsed() < Duration::from_millis(2000) {
+                            if cl.conn.is_closed() || cl.conn.is_draining() || cl.conn.peer_error().is_some() {
+                                closed = true;
+                                break;
+                            }
+                            let _ = cl.conn.send_ack_eliciting();
+                            cl.pump();
+                            std::thread::sleep(Duration::from_millis(100));
+                        }
+                        ctx.stat(if closed { "live_quic_denied_and_closed" } else { "live_quic_denied_left_open" });
+                        if !closed {
+                            ctx.oracle_failure(
+                                "denied_connection_left_open",
+                                &format!("QUIC connection with SNI {} from {} got no answer to its request (denied), but 2 s and 20 PINGs later the endpoint had not closed it: it is still established (rules [{}])", sni, peer.map(|p| p.to_string()).unwrap_or_default(), rt),
+                            );
+                        }
+                    }
                     cl.close();
                     (if served { "allow" } else { "deny" }, rnd)
                 }
